@@ -418,18 +418,30 @@ def sliceIndex (cmp : Bytes → Bytes → Ordering) (start limit : Option Bytes)
   | none => ix1
   | some l => ix1.takeWhile (fun e => cmp e.1 l == .lt) ++ (ix1.dropWhile fun e => cmp e.1 l == .lt).take 1
 
+/-- apply `f` to the last element -/
+def mapLast {α : Type} (f : α → α) : List α → List α
+  | [] => []
+  | [c] => [f c]
+  | c :: r => c :: mapLast f r
+
+/-- apply `f` to the first and to the last element (`indexIter.Get`: the slice is handed to the data iterator
+iff `isFirst() || isLast()`) -/
+def mapEnds {α : Type} (f : α → α) : List α → List α
+  | [] => []
+  | [c] => [f c]
+  | c :: r => f c :: mapLast f r
+
 /-- what a full forward pass of `NewIterator(&util.Range{start, limit}, _)` yields: the sliced index, the
-slice applied to the first and the last of its data blocks (`indexIter.Get`: `isFirst() || isLast()`) -/
+slice applied to the first and the last of its data blocks.  (`newBlockIter` after the D21 fix: when the seek
+for `Start` finds nothing the range is empty and `Limit` is not looked at — `sliceBlock` / `sliceIndex` on an
+empty remainder.) -/
 def entriesInRange (t : TableR) (start limit : Option Bytes) : Option (List KV) :=
   match t.index.entries with
   | none => none
   | some ix =>
     match t.blocksOf (sliceIndex t.cmp start limit ix) with
     | none => none
-    | some bs =>
-      let n := bs.length
-      some ((bs.zipIdx.map fun (es, i) =>
-        if i = 0 ∨ i + 1 = n then sliceBlock t.cmp start limit es else es).flatten)
+    | some bs => some (mapEnds (sliceBlock t.cmp start limit) bs).flatten
 
 end TableR
 
